@@ -12,7 +12,7 @@ import time
 
 VERIF = os.path.dirname(os.path.dirname(os.path.abspath(__file__)))
 REPO = os.environ.get("VERIF_REPO", "/repo")
-BUILD = os.path.join(VERIF, ".build")
+BUILD = os.environ.get("VERIF_BUILD", os.path.join(VERIF, ".build"))
 COQ = os.path.join(VERIF, "coq")
 HARNESS = os.path.join(VERIF, "harness")
 TARGET = os.path.join(BUILD, "target")
@@ -56,7 +56,10 @@ class Env:
 class Lock:
     def __init__(self, name):
         os.makedirs(BUILD, exist_ok=True)
-        self.path = os.path.join(BUILD, name + ".lock")
+        # the coq tree is shared by every build dir, so its lock lives in /verif/.build
+        base = os.path.join(VERIF, ".build") if name == "coq" else BUILD
+        os.makedirs(base, exist_ok=True)
+        self.path = os.path.join(base, name + ".lock")
 
     def __enter__(self):
         self.f = open(self.path, "w")
@@ -109,19 +112,26 @@ def build_harness(release=False, log=None):
     with Lock("cargo"):
         os.makedirs(BUILD, exist_ok=True)
         tmpl = open(os.path.join(HARNESS, "Cargo.toml.in")).read().replace("@REPO@", REPO)
-        ct = os.path.join(HARNESS, "Cargo.toml")
+        hdir = HARNESS
+        if REPO != "/repo":
+            # scratch copy of /repo under test (selftest / fix validation): keep /verif/harness untouched
+            hdir = os.path.join(BUILD, "harness_alt")
+            os.makedirs(hdir, exist_ok=True)
+            if not os.path.islink(os.path.join(hdir, "src")):
+                os.symlink(os.path.join(HARNESS, "src"), os.path.join(hdir, "src"))
+        ct = os.path.join(hdir, "Cargo.toml")
         if not os.path.exists(ct) or open(ct).read() != tmpl:
             open(ct, "w").write(tmpl)
         lock_src = os.path.join(REPO, "Cargo.lock")
-        lock_dst = os.path.join(HARNESS, "Cargo.lock")
+        lock_dst = os.path.join(hdir, "Cargo.lock")
         if not os.path.exists(lock_dst):
             shutil.copy(lock_src, lock_dst)
         cmd = "cargo +nightly build --offline" + (" --release" if release else "")
-        rc, out = sh(cmd, cwd=HARNESS, env=cargo_env(), timeout=1500)
+        rc, out = sh(cmd, cwd=hdir, env=cargo_env(), timeout=1500)
         if rc != 0:
             # a stale lock copy can be the reason: refresh once
             shutil.copy(lock_src, lock_dst)
-            rc, out = sh(cmd, cwd=HARNESS, env=cargo_env(), timeout=1500)
+            rc, out = sh(cmd, cwd=hdir, env=cargo_env(), timeout=1500)
         return rc == 0, out
 
 
@@ -150,7 +160,7 @@ def refresh_tables():
 # Coq
 
 def run_translator():
-    rc, out = sh([sys.executable, os.path.join(VERIF, "translator", "gen_tables.py")])
+    rc, out = sh([sys.executable, os.path.join(VERIF, "translator", "gen_tables.py"), os.path.join(BUILD, "tables.json")])
     return rc == 0, out
 
 
